@@ -380,11 +380,51 @@ PROPS['C19'] = {
                    'sites, readable bytes behind the pointer cast), bounded in the input length.',
 }
 
-PROPS['C01']['kani'] = GC_DECODE + GC_OPTIONS
-PROPS['C02']['kani'] = K_C17[:5] + K_FILTERED_SER + GC_ROUNDTRIP
-PROPS['C03']['kani'] = K_C03_HEADS + K_FILTERED_SER
-PROPS['C05']['kani'] = GC_DECODE[1:]
+K_LOSSY = [
+    H(WEB + 'c13_k_user_icon_keep_or_drop', ['webauthn::deserialize_from_str_and_skip_if_too_long::<_, 128>'], kind='bounded',
+      bound='ASCII texts of 0..=300 bytes', timeout=900),
+    H(WEB + 'c13_k_truncate_64_window', ['webauthn::truncate::<64>', 'webauthn::floor_char_boundary'], kind='bounded',
+      bound='texts <= 300 bytes, window precondition around the cut'),
+    H(WEB + 'c13_k_rp_icon_discarded', ['<webauthn::Icon as Deserialize>::deserialize'], kind='bounded', bound='ASCII texts of 0..=300 bytes'),
+    H(WEB + 'c13_k_rp_icon_must_be_text', ['<webauthn::Icon as Deserialize>::deserialize'], kind='bounded', bound='integer / bool / bytes / null'),
+    H(ROOT + 'c14::c14_k_filtered_params_upto3', ['<FilteredPublicKeyCredentialParameters as Deserialize>::deserialize (visit_seq loop)'],
+      kind='bounded', bound='lists of 0..=3 symbolic entries'),
+    H(ROOT + 'c14::c14_k_attestation_formats_upto3', ['<AttestationFormatsPreference as Deserialize>::deserialize (visit_seq loop)'],
+      kind='bounded', bound='lists of 0..=3 symbolic entries'),
+]
+K_TYPE_CAP = [
+    H(ROOT + 'c14::c14_k_filtered_params_type_capacity', ['<FilteredPublicKeyCredentialParameters as Deserialize>::deserialize', 'String<32> capacity of the entry type'],
+      kind='bounded', bound='lists of 0..=2 entries, type strings of 10 or 33 bytes'),
+]
+K_FILTERED_LEN = [
+    H(ROOT + 'c14::c03_k_filtered_params_serialize_length', ['<FilteredPublicKeyCredentialParameters as Serialize>::serialize'], kind='proof',
+      note='all lists the type can hold (0..=2 entries over the two known algorithms, duplicates included), counting serializer'),
+]
+K_GNA = [
+    H(ROOT + 'c02::c02_k_get_next_assertion_like_get_assertion', ['ctap2::Response::serialize::<48> (GetAssertion | GetNextAssertion arm)'],
+      kind='bounded', bound='one concrete shape of the fixed members, symbolic optional scalars, N = 48', timeout=1200),
+]
+PROPS['C01']['kani'] = GC_DECODE + GC_OPTIONS + K_LOSSY + K_TYPE_CAP
+PROPS['C02']['kani'] = K_C17[:5] + K_GNA + K_FILTERED_LEN + K_FILTERED_SER + GC_ROUNDTRIP
+PROPS['C03']['kani'] = K_C03_HEADS + K_FILTERED_LEN + K_FILTERED_SER
+PROPS['C05']['kani'] = GC_DECODE[1:] + K_LOSSY[3:4]
 PROPS['C06']['kani'] = GC_OPTIONS
-PROPS['C12']['kani'] = GC_CAP
+PROPS['C12']['kani'] = GC_CAP + K_TYPE_CAP + K_LOSSY[0:1]
 PROPS['C15']['kani'] = GC_ROUNDTRIP + K_C18_STRINGS[:3]
 PROPS['C18']['kani'] = K_C18_STRINGS
+
+PROPS['C13']['kani'] = K_C13 + K_LOSSY[3:4]
+PROPS['C14']['kani'] = K_C14 + K_TYPE_CAP
+PROPS['C04']['kani'] = K_C13 + K_C14[:3] + K_LOSSY[3:4]
+PROPS['C09']['kani'] = [
+    H(ROOT + 'c09::c09_k_authenticate_small', ['ctap1::Response::serialize::<80> (Authenticate)'], kind='gc',
+      bound='S = 80, symbolic pre-fill 0..=80, signature <= 2 bytes'),
+    H(ROOT + 'c09::c09_k_register_small', ['ctap1::Response::serialize::<80> (Register)'], kind='gc',
+      bound='S = 80, symbolic pre-fill, key handle / certificate / signature <= 2 bytes', timeout=1200),
+]
+PROPS['C07']['kani'] = PROPS['C07']['kani'] + [
+    H(ROOT + 'c07::c07_k_extensions_present_iff_supplied', ['ctap2::AuthenticatorData::serialize (extension outputs)'], kind='gc',
+      bound='three concrete extension shapes, symbolic hash / flags / counter'),
+    H(ROOT + 'c07::c07_k_capacity_frontier_quick', ['ctap2::AuthenticatorData::serialize', 'AttestedCredentialData::serialize'], kind='gc',
+      bound='totals 676 / 677 / 678 with concrete lengths', timeout=1200),
+]
